@@ -103,22 +103,27 @@ class CosScenario(object):
         oracle(ctx, res, self.case["name"].split("/")[1] + "/" + self.case["earlier"], info)
 
 
-class CountingCancel(object):
-    """Counts cancel() calls arriving at a future of any class (instance attribute shadows the method)."""
+LIBCANCELS = {}
+_patched = [False]
 
-    def __init__(self, f, tag):
-        self.f, self.tag = f, tag
-        self.calls = []
-        self.orig = f.cancel
-        f.cancel = self
-        f.cancel_calls = self.calls
-        f.tag = tag
 
-    def __call__(self):
-        s = LOG.add("lib.cancel", tag=self.tag)
-        r = self.orig()
-        self.calls.append((s, 0.0, r))
+def patch_lib_cancel():
+    """Count cancel() calls arriving at library futures (any _Future subclass).  Done at class level so
+    that a cancel issued the very moment submit() returns - before the harness could touch the returned
+    object - is counted too."""
+    if _patched[0]:
+        return
+    from more_executors._impl.common import _Future
+    orig = _Future.cancel
+
+    def cancel(self):
+        lst = LIBCANCELS.setdefault(id(self), [])
+        s = LOG.add("lib.cancel", fut=id(self))
+        r = orig(self)
+        lst.append((s, 0.0, r))
         return r
+    _Future.cancel = cancel
+    _patched[0] = True
 
 
 class LayeredScenario(CosScenario):
@@ -126,6 +131,8 @@ class LayeredScenario(CosScenario):
 
     def setup(self):
         from .. import stacks
+        patch_lib_cancel()
+        LIBCANCELS.clear()
         ctx = Ctx()
         t = self.case["inner"]
         L = {"t": t, "k": 0}
@@ -154,7 +161,8 @@ class LayeredScenario(CosScenario):
             ctx.submit_results.append((who, "raised", str(e)))
             return None
         ctx.n += 1
-        CountingCancel(f, "lib#%d" % ctx.n)
+        f.cancel_calls = LIBCANCELS.setdefault(id(f), [])
+        f.tag = "lib#%d" % ctx.n
         ctx.returned.append(f)
         ctx.submit_results.append((who, "future", f))
         return f
